@@ -21,7 +21,8 @@
      reference booking through `current_fn` (`cur`), mark_live, scan_globals,
      and the gating of emit_data / emit_text.  Computed incrementally.
    ResetCurFn = FALSE (with everything else repaired) is D23 alone and must be
-   REJECTED by TLC as well.
+   REJECTED by TLC as well; so must SkipSizeof = TRUE (references inside sizeof
+   operands not booked: wrong for VLA type names, whose length is evaluated).
    Fixed = FALSE is Level I of the pinned tree and must be REJECTED by TLC
      (sensitivity control and record of D23 and the defects found with it):
        - current_fn is never reset after function()            (D23)
@@ -43,7 +44,7 @@
              InitAfterOwn), initializer after all definitions}             *)
 EXTENDS Integers, Sequences, FiniteSets, TLC, Json, CSV, IOUtils, SequencesExt
 
-CONSTANTS Mode, MaxLen, N, SelfLoops, InitAfterOwn, Fixed, ResetCurFn, Emit
+CONSTANTS Mode, MaxLen, N, SelfLoops, InitAfterOwn, FreeKinds, Fixed, ResetCurFn, SkipSizeof, Emit
 
 Mx(a, b) == IF a > b THEN a ELSE b
 
@@ -71,9 +72,21 @@ VarAlignA(t, thr) == IF thr THEN t.al ELSE VarAlign(t)
                sc in {none, static, extern}, inline specifier, and (for a
                definition) the set of functions its body references
    k = "init": a file-scope pointer-to-function object initialised with `name`                              *)
-ObjE(ev) == [k |-> "obj", name |-> "x", ev |-> ev, sc |-> "-", inl |-> FALSE, def |-> FALSE, refs |-> {}]
-FnE(n, sc, inl, def, refs) == [k |-> "fn", name |-> n, ev |-> "-", sc |-> sc, inl |-> inl, def |-> def, refs |-> refs]
-InitE(n) == [k |-> "init", name |-> n, ev |-> "-", sc |-> "-", inl |-> FALSE, def |-> FALSE, refs |-> {}]
+ObjE(ev) == [k |-> "obj", name |-> "x", ev |-> ev, sc |-> "-", inl |-> FALSE, def |-> FALSE, refs |-> {}, urefs |-> {}]
+(* A definition's body references the functions `refs` in POTENTIALLY EVALUATED expressions, all written in
+   the way `kind` (field ev) says:
+     "call"      r(d - 1) and a call through &r, alternating       (call, address-taking)
+     "vlatype"   sizeof(char[r(d - 1) + 1])      - the operand of sizeof is a VLA type name: its length
+     "vlatype2"  sizeof(char[d + 2][r(d - 1) + 1])   expression IS evaluated (C11 6.5.3.4p2, 6.7.6.2p5)
+     "vlabound"  { char a[r(d - 1) + 1]; ... }   - bound of a block-scope VLA
+   and the functions `urefs` only in operands that are NOT evaluated: sizeof(u(d - 1)) and
+   _Alignof(char[sizeof(u(d - 1))]).  C11 6.9p3 does not count those as a use of u. *)
+Kinds == {"call", "vlatype", "vlatype2", "vlabound"}
+SizeofKinds == {"vlatype", "vlatype2"}
+FnEK(n, sc, inl, def, refs, urefs, kind) ==
+  [k |-> "fn", name |-> n, ev |-> kind, sc |-> sc, inl |-> inl, def |-> def, refs |-> refs, urefs |-> urefs]
+FnE(n, sc, inl, def, refs) == FnEK(n, sc, inl, def, refs, {}, "call")
+InitE(n) == [k |-> "init", name |-> n, ev |-> "-", sc |-> "-", inl |-> FALSE, def |-> FALSE, refs |-> {}, urefs |-> {}]
 
 VARIABLES es,        \* the unit: events so far
           fcommon, ty, tls,   \* unit parameters: -fcommon?, type of x, _Thread_local on every declaration of x
@@ -180,19 +193,27 @@ AnyInline(s, n) == \E i \in DOMAIN s : IsFn(s[i], n) /\ s[i].inl
 (* 6.7.4p7: all file-scope declarations `inline` without `extern` => inline definition, no external one *)
 InlineDefn(s, n) == ~InternalFn(s, n) /\ \A i \in DOMAIN s : IsFn(s[i], n) => (s[i].inl /\ s[i].sc # "extern")
 ExtDef(s, n) == ~InternalFn(s, n) /\ HasDef(s, n) /\ ~InlineDefn(s, n)
-Body(s, n) == UNION { s[i].refs : i \in { j \in DOMAIN s : IsFn(s[j], n) /\ s[j].def } }
+Body(s, n) == UNION { s[i].refs : i \in { j \in DOMAIN s : IsFn(s[j], n) /\ s[j].def } }      \* evaluated references
+UBody(s, n) == UNION { s[i].urefs : i \in { j \in DOMAIN s : IsFn(s[j], n) /\ s[j].def } }    \* unevaluated ones
 InitTargets(s) == { s[i].name : i \in { j \in DOMAIN s : s[j].k = "init" } }
 RootsA(s) == { n \in FNames(s) : ExtDef(s, n) } \cup InitTargets(s)
 RECURSIVE ClosureA(_, _)
 ClosureA(s, S) == LET S2 == S \cup UNION { Body(s, n) : n \in S \cap FNames(s) }
                   IN IF S2 = S THEN S ELSE ClosureA(s, S2)
-ReachA(s) == ClosureA(s, RootsA(s))      \* functions referenced by something that must be emitted
+ReachA(s) == ClosureA(s, RootsA(s))      \* functions referenced (in evaluated code) by something that must be emitted
+(* functions that are at most named in unevaluated operands of emitted code, or referenced by such a
+   function: they need not be emitted (gcc does not), emitting them is harmless (chibicc does) - but
+   whatever is emitted must not leave an undefined reference behind *)
+RECURSIVE ClosureM(_, _)
+ClosureM(s, S) == LET S2 == S \cup UNION { Body(s, n) \cup UBody(s, n) : n \in S \cap FNames(s) }
+                  IN IF S2 = S THEN S ELSE ClosureM(s, S2)
+MayA(s) == ClosureM(s, RootsA(s))
 RefdAnywhere(s) == InitTargets(s) \cup UNION { Body(s, n) : n \in FNames(s) }
 
 FnOK(s, e) ==                           \* may fn event e follow s?
   /\ e.def => ~HasDef(s, e.name)                                           \* 6.9p3/p5
   /\ e.sc = "static" => (Len(FDecls(s, e.name)) = 0 \/ InternalFn(s, e.name))  \* 6.2.2p7
-  /\ e.refs \subseteq FNames(s) \cup {e.name}                                \* declared before use
+  /\ e.refs \cup e.urefs \subseteq FNames(s) \cup {e.name}                    \* declared before use
 InitOK(s, e) == e.name \in FNames(s)
 
 (* a unit is judged when it is a valid complete unit: every inline function is
@@ -206,18 +227,21 @@ JudgedFn(s) == \A n \in FNames(s) :
    one, are both allowed by 6.7.4p7: gcc does the latter, chibicc the former).
    "optlocal": an unreferenced internal function that is not declared inline on
    every declaration may or may not be emitted (gcc -O0 keeps `static` ones).   *)
-RowFnA2(s, n, reach) ==
+RowFnA3(s, n, reach, may) ==
   IF ExtDef(s, n) THEN DefRow("GLOBAL", "FUNC", "text", 0, 0)
   ELSE IF ~InternalFn(s, n) /\ HasDef(s, n) THEN [None EXCEPT !.st = "nonglobal"]
-  ELSE IF ~InternalFn(s, n) THEN (IF n \in reach THEN Und ELSE None)
+  ELSE IF ~InternalFn(s, n) THEN (IF n \in reach THEN Und ELSE IF n \in may THEN [None EXCEPT !.st = "optund"] ELSE None)
   ELSE IF HasDef(s, n) THEN (IF n \in reach THEN DefRow("LOCAL", "FUNC", "text", 0, 0)
+                             ELSE IF n \in may THEN [None EXCEPT !.st = "optlocal"]
                              ELSE IF AllInline(s, n) THEN None
                              ELSE [None EXCEPT !.st = "optlocal"])
   ELSE None
-RowFnA(s, n) == RowFnA2(s, n, ReachA(s))
+RowFnA2(s, n, reach) == RowFnA3(s, n, reach, MayA(s))
+RowFnA(s, n) == RowFnA3(s, n, ReachA(s), MayA(s))
 
 Match(i, a) == CASE a.st \in {"nonglobal"} -> i.st \in {"none", "und"} \/ (i.st = "def" /\ i.bind = "LOCAL")
                  [] a.st = "optlocal"     -> i.st = "none" \/ (i.st = "def" /\ i.bind = "LOCAL")
+                 [] a.st = "optund"       -> i.st \in {"none", "und"}
                  [] OTHER                 -> i = a
 
 (* D33 (pinned tree; repaired): chibicc decided "static" when the FIRST declaration is a bare
@@ -238,7 +262,11 @@ FnStepI(e) ==
              ELSE [def |-> e.def, static |-> e.sc = "static" \/ (e.inl /\ e.sc # "extern"),
                    inline |-> e.inl, ionly |-> e.inl /\ e.sc = "none", root |-> FALSE, refs |-> {}]
       f1  == [f0 EXCEPT !.root = (Fixed /\ @) \/ ~(f0.static /\ f0.inline)]   \* pinned: plain assignment
-      f2  == IF e.def THEN [f1 EXCEPT !.refs = @ \cup e.refs] ELSE f1        \* primary(): refs booked on current_fn = fn
+      (* primary() books EVERY identifier that names a function on current_fn = fn, whatever the
+         context.  SkipSizeof = TRUE is a parser that skips the booking inside the operands of
+         sizeof/_Alignof (seeded change C15-4): right for urefs, wrong for VLA type names *)
+      booked == IF SkipSizeof THEN (IF e.ev \in SizeofKinds THEN {} ELSE e.refs) ELSE e.refs \cup e.urefs
+      f2  == IF e.def THEN [f1 EXCEPT !.refs = @ \cup booked] ELSE f1
   IN /\ fns' = [n \in DOMAIN fns \cup {e.name} |-> IF n = e.name THEN f2 ELSE fns[n]]
      /\ cur' = IF e.def THEN (IF Fixed /\ ResetCurFn THEN "" ELSE e.name) ELSE cur   \* repaired: current_fn = NULL after the body
      /\ UNCHANGED <<gl, inits>>
@@ -263,7 +291,8 @@ Case(s) == [mode |-> Mode, fcommon |-> fcommon, ty |-> ty.id, tls |-> tls, es |-
             objrow |-> IF Mode = "obj" THEN RowObjA(s) ELSE None,
             anon |-> IF Mode = "obj" THEN AnonA(s) ELSE <<>>,
             fnrows |-> LET reach == ReachA(s)
-                       IN { [name |-> n, row |-> RowFnA2(s, n, reach), known |-> KnownInlineExt(s, n)] : n \in FNames(s) }]
+                           may   == MayA(s)
+                       IN { [name |-> n, row |-> RowFnA3(s, n, reach, may), known |-> KnownInlineExt(s, n)] : n \in FNames(s) }]
 Out(s) == (Emit /\ JudgedFn(s)) => CSVWrite("%1$s", <<ToJson(Case(s))>>, IOEnv.OUT)
 
 StepObj(e) == /\ es' = Append(es, e)
@@ -279,11 +308,15 @@ StepFn(e, st2) == /\ es' = Append(es, e)
 Idx == ToString(Len(es) + 1)
 FnAlphabet ==
   { FnE("f", sc, inl, def, {}) : sc \in {"none", "static", "extern"}, inl \in BOOLEAN, def \in BOOLEAN }
-  \cup { FnE("r" \o Idx, "none", FALSE, TRUE, {"f"}),      \* a global function calling f: a root
+  \cup { FnEK("r" \o Idx, "none", FALSE, TRUE, {"f"}, {}, k) : k \in Kinds }   \* a global function referencing f, in each way: a root
+  \cup { FnEK("v" \o Idx, "none", FALSE, TRUE, {}, {"f"}, "call"),               \* a global function naming f in unevaluated operands only
          FnE("u" \o Idx, "static", TRUE, TRUE, {"f"}),     \* an unreferenced static inline calling f: NOT a root
          InitE("f") }                                       \* a file-scope initializer naming f: a root
 
 S(i) == "s" \o ToString(i)
+KindSeq == <<"call", "vlatype", "vlabound", "vlatype2">>
+DefKinds(i) == IF FreeKinds THEN Kinds ELSE {KindSeq[((i - 1) % 4) + 1]}     \* fixed rotation unless FreeKinds
+DefURefs(i) == IF FreeKinds THEN SUBSET ((1..N) \ {i}) ELSE {{}}
 Callees(i) == SUBSET (IF SelfLoops THEN 1..N ELSE (1..N) \ {i})
 GraphNext ==
   \/ /\ st.ph = "proto"
@@ -292,8 +325,8 @@ GraphNext ==
   \/ /\ st.ph = "ib"                          \* initializer before any function definition
      /\ \E j \in st.c..N : StepFn(InitE(S(j)), [st EXCEPT !.c = j + 1, !.rooted = @ \cup {j}])
   \/ /\ st.ph \in {"ib", "def"} /\ st.d < N   \* definition of s(d+1) with its callees
-     /\ \E C \in Callees(st.d + 1) :
-          StepFn(FnE(S(st.d + 1), "static", TRUE, TRUE, {S(j) : j \in C}),
+     /\ \E C \in Callees(st.d + 1), kd \in DefKinds(st.d + 1), U \in DefURefs(st.d + 1) :
+          StepFn(FnEK(S(st.d + 1), "static", TRUE, TRUE, {S(j) : j \in C}, {S(j) : j \in U \ C}, kd),
                  [st EXCEPT !.ph = "def", !.d = @ + 1, !.c = 1, !.fresh = TRUE])
   \/ /\ InitAfterOwn /\ st.ph = "def" /\ st.fresh /\ st.d \notin st.rooted      \* initializer right after the own definition
      /\ StepFn(InitE(S(st.d)), [st EXCEPT !.fresh = FALSE, !.rooted = @ \cup {st.d}])
@@ -301,8 +334,8 @@ GraphNext ==
      /\ \E j \in st.c..N : /\ j \notin st.rooted /\ ~(st.fresh /\ j = N)
                            /\ StepFn(InitE(S(j)), [st EXCEPT !.c = j + 1, !.fresh = FALSE, !.rooted = @ \cup {j}])
   \/ /\ st.ph = "def" /\ st.d = N             \* a global function referencing R: the last event
-     /\ \E R \in SUBSET ((1..N) \ st.rooted) :
-          StepFn(FnE("user", "none", FALSE, TRUE, {S(j) : j \in R}), [st EXCEPT !.ph = "done"])
+     /\ \E R \in SUBSET ((1..N) \ st.rooted), kd \in (IF N <= 3 THEN {"call", "vlatype"} ELSE {"vlatype"}) :
+          StepFn(FnEK("user", "none", FALSE, TRUE, {S(j) : j \in R}, {}, kd), [st EXCEPT !.ph = "done"])
 
 Init == /\ es = <<>> /\ gl = <<>> /\ fns = [n \in {} |-> 0] /\ cur = "" /\ inits = {}
         /\ st = [ph |-> IF N > 0 THEN "proto" ELSE "done", d |-> 0, c |-> 1, rooted |-> {}, fresh |-> FALSE]
@@ -328,12 +361,13 @@ RowsAgree(i, a) == /\ [i EXCEPT !.align = 0] = [a EXCEPT !.align = 0]
 ObjRefines == Mode = "obj" => (RowsAgree(RowObjI, RowObjA(es)) /\ AnonI = AnonA(es))
 FnRefines  == JudgedFn(es) =>
                 LET reach == ReachA(es)              \* evaluated once per state
+                    may   == MayA(es)
                     live  == LiveI
                     emit  == { n \in DOMAIN fns : fns[n].def /\ n \in live }
                     refd  == inits \cup UNION { Body(es, n) : n \in emit }
                     rowI(n) == IF n \in emit THEN DefRow(IF fns[n].static THEN "LOCAL" ELSE "GLOBAL", "FUNC", "text", 0, 0)
                                ELSE IF n \in refd THEN Und ELSE None
-                IN \A n \in FNames(es) : Match(rowI(n), RowFnA2(es, n, reach))
+                IN \A n \in FNames(es) : Match(rowI(n), RowFnA3(es, n, reach, may))
 (* sanity of Level A: a symbol is common only under -fcommon, never when
    initialised, internal or thread-local; internal <=> LOCAL *)
 AWellFormed ==
